@@ -37,6 +37,7 @@ type stateEv struct {
 	FreshX  []string     `json:"freshx"`  //
 	XDiff   []string     `json:"xdiff"`   // exact difference between inc and fresh[0]
 	Dups    []string     `json:"dups"`    // sections defined more than once in the files of the incremental controller
+	Slots   []string     `json:"slots"`   // backends whose server lines on disk are not the endpoints (slots) of the in-memory model
 	Diff    []string     `json:"diff"`    // entries differing between inc and fresh[0] (report only)
 	FDiff   []string     `json:"fdiff"`   // entries differing among fresh controllers
 	Err     bool         `json:"err"`     // the reconciliation of this step reported an error
@@ -278,6 +279,53 @@ func observeX(w *world.World) (*cfgnf.NF, *cfgnf.NF, *cfgnf.Facts, error) {
 		return nil, nil, nil, err
 	}
 	return raw.PruneAuth().Canon(), raw.Canon(), raw.Facts(), nil
+}
+
+// slotsDiff compares the server slots of every backend of the in-memory model of the incremental controller with the server
+// lines of its section on disk: name, address and the disabled flag, slot by slot (empty slots included).
+func slotsDiff(w *world.World) ([]string, error) {
+	raw, err := cfgnf.Load(w.Opt.CfgDir(), w.Opt.Dir)
+	if err != nil {
+		return nil, err
+	}
+	disk := map[string][]string{}
+	for _, sec := range raw.Sections {
+		if sec.Kind != "backend" {
+			continue
+		}
+		for _, l := range sec.Lines {
+			f := strings.Fields(l)
+			if len(f) >= 3 && f[0] == "server" {
+				e := f[1] + " " + f[2]
+				if strings.Contains(" "+strings.Join(f[3:], " ")+" ", " disabled ") {
+					e += " disabled"
+				}
+				disk[sec.Name] = append(disk[sec.Name], e)
+			}
+		}
+	}
+	res := []string{}
+	for id, b := range w.P.Svc.VerifInstance().Config().Backends().Items() {
+		if b.Resolver != "" {
+			continue // server-template
+		}
+		mem := []string{}
+		for _, e := range b.Endpoints {
+			x := e.Name + " " + e.Target
+			if !e.Enabled {
+				x += " disabled"
+			}
+			mem = append(mem, x)
+		}
+		d := append([]string{}, disk[id]...)
+		sort.Strings(mem)
+		sort.Strings(d)
+		if strings.Join(mem, "|") != strings.Join(d, "|") {
+			res = append(res, fmt.Sprintf("%s: model [%s] disk [%s]", id, strings.Join(mem, ", "), strings.Join(d, ", ")))
+		}
+	}
+	sort.Strings(res)
+	return res, nil
 }
 
 var keepDir string
@@ -540,6 +588,9 @@ func runHistory(base string, h *hist.History, certs *hist.Certs, nfresh int, fac
 		ev := stateEv{Tr: h.ID, Ev: "State", Step: si, Inc: nfDigest(inc), Err: rerr != nil, Retried: retried,
 			Reloads: r1 - r0, Ncmd: len(cmds), Ops: labels, Faulted: faulted, Failed: firstErr != nil, Diff: []string{}, FDiff: []string{}, Fresh: []string{},
 			IncX: nfDigest(incx), FreshX: []string{}, XDiff: []string{}, Dups: append([]string{}, incx.Dups...)}
+		if ev.Slots, err = slotsDiff(w); err != nil {
+			return nil, err
+		}
 		run := w.Sim.RunningCopy()
 		disk, err := hasim.LoadRuntime(w.Opt.CfgDir())
 		if err != nil {
